@@ -288,6 +288,7 @@ impl World {
                         let fits = match dir {
                             "true" | "false" => parked == "Run",
                             "ok" => matches!(parked, "Start" | "Handler" | "Stop"),
+                            "slow" | "slowpanic" => parked == "Handler",
                             "err" => matches!(parked, "Start" | "Stop" | "Run"),
                             _ => parked != "",
                         } && exp_hook.map(|h| h == parked).unwrap_or(true);
